@@ -159,11 +159,37 @@ def directed(i):
 NDIRECTED = 1
 
 
+def gen_lost_stopoffer(seed, idx):
+    """a graceful stop whose StopOffer is lost, and a start again before the watcher's offer TTL runs out: the watcher
+    never notices the interruption (later offers only refresh its record); its Subscribe refreshes are refused while the
+    offerer is down and must re-establish the subscription afterwards"""
+    r = rng(seed, ID, "lso", idx)
+    ta, tb = draw_node_timings(r), draw_node_timings(r)
+    ta["ANNOUNCE_TTL"] = r.choice([4, 6])
+    ta["CYCLIC_OFFER_DELAY"] = r.choice([0.5, 1.0])
+    tb["SUBSCRIBE_REFRESH_INTERVAL"] = r.choice([0.5, 1.0])
+    tb["SUBSCRIBE_TTL"] = r.choice([3, 5])
+    nodes = {"A": {"role": "offerer", "timings": ta}, "B": {"role": "watcher", "timings": tb, "second_watch": r.random() < 0.3}}
+    lat = r.choice([0.0001, 0.001, 0.005])
+    net = {"latency": lat, "jitter": 0.0, "windows": [], "partitions": []}
+    cfg = {"nodes": nodes, "net": net, "mc_loop": r.random() < 0.3, "sock_flip": r.choice([0, 0.5])}
+    t1 = round(r.uniform(2.0, 4.0), 6)
+    down = round(r.uniform(tb["SUBSCRIBE_REFRESH_INTERVAL"] + 0.1, ta["ANNOUNCE_TTL"] - ta["CYCLIC_OFFER_DELAY"] - 0.3), 6)
+    net["windows"].append({"t0": round(t1 - 0.002, 6), "t1": round(t1 + 0.12, 6), "kind": "drop", "rate": 1.0, "node": "10.0.0.1"})
+    ops = [{"k": "node", "t": t1, "n": "A", "f": "stop"}, {"k": "node", "t": round(t1 + down, 6), "n": "A", "f": "start"}]
+    plan = {"engine": "pair", "property": ID, "class": "lost-stopoffer", "seed": seed, "cfg": cfg, "ops": ops, "until": 0}
+    w0, until = horizon(cfg, last_disturbance(plan))
+    plan["until"] = round(until, 6)
+    return plan
+
+
 def gen(seed, idx, tier):
     if idx < NDIRECTED:
         return directed(idx)
     if idx % 5 == 4:
         return gen_infinite(seed, idx)
+    if idx % 10 == 7:
+        return gen_lost_stopoffer(seed, idx)
     r = rng(seed, ID, idx)
     nodes = {
         "A": {"role": "offerer", "timings": draw_node_timings(r), "second_instance": r.random() < 0.3},
